@@ -9,6 +9,7 @@ import Midgard.Generated.Sp3Cols
 import Midgard.Spec.Sp3
 import Midgard.Proofs.FixedCol
 import Midgard.Proofs.Sp3File
+import Midgard.Model.Sp3Adv
 
 namespace Midgard.Props.C13
 open Midgard.Sp3 Midgard.Generated.Sp3 Midgard.FixedCol Midgard.Text Midgard.Decimal
@@ -563,6 +564,28 @@ example : ((parseFile factors headerDefs epochFields recP (Midgard.Spec.Sp3File.
 
 end File
 
+/-! ## Text mode: the bytes on disk -/
+
+/-- text mode (universal newlines) changes nothing in a text without carriage returns -/
+theorem universalNewlines_id (t : Str) (h : ∀ c ∈ t, c ≠ '\r') : universalNewlines t = t := by
+  unfold universalNewlines
+  induction t with
+  | nil => rfl
+  | cons c rest ih =>
+    have hc : c ≠ '\r' := h c (by simp)
+    have ih' := ih (fun d hd => h d (by simp [hd]))
+    by_cases hn : c = '\n'
+    · subst hn
+      simp only [universalNewlinesAux, hc, if_false, if_true, Bool.false_eq_true, ih']
+    · simp only [universalNewlinesAux, hc, hn, if_false, ih']
+
+/-- on a file without carriage returns the text-level entry point of the adversarial files is `parseFile` itself,
+so `file_roundtrip` speaks about the bytes on disk -/
+theorem parseFileText_eq (F : Factors) (defs : List HeaderDef) (epochFields : List (Option String)) (recP : Layout)
+    (t : Str) (h : ∀ c ∈ t, c ≠ '\r') : parseFileText F defs epochFields recP t = parseFile F defs epochFields recP t := by
+  unfold parseFileText
+  rw [universalNewlines_id t h]
+
 end Midgard.Props.C13
 
 #print axioms Midgard.Props.C13.layouts_sorted
@@ -591,3 +614,5 @@ end Midgard.Props.C13
 #print axioms Midgard.Props.C13.file_roundtrip
 #print axioms Midgard.Props.C13.length_expectedEntries
 #print axioms Midgard.Props.C13.all_columns_equal_length
+#print axioms Midgard.Props.C13.universalNewlines_id
+#print axioms Midgard.Props.C13.parseFileText_eq
